@@ -535,3 +535,37 @@ package contractcourt
 //@   site call Get: assert arg(0) != nil && arg(1) == k
 //@   site call applyTaprootRetInfo: assert arg(1) == ret && ret(Get) != nil
 //@   site call cb: assert arg(0) == ret && ret(Decode, 0) == nil
+//@
+//@ // ---- the grace period for our own payments counts from the start of the arbitrator: nothing that happens while it runs (a link coming
+//@ // ---- back up, a new block, a close event) moves the start time - otherwise a reconnect pattern postpones the go-to-chain decision
+//@ // ---- of an own payment past its expiry
+//@ func (c *ChannelArbitrator) channelAttendant
+//@   props C12
+//@   loop * havoc
+//@   requires c != nil
+//@   requires c.cfg.CloseType == channeldb.CooperativeClose || c.cfg.CloseType == channeldb.BreachClose ||
+//@            c.cfg.CloseType == channeldb.LocalForceClose || c.cfg.CloseType == channeldb.RemoteForceClose
+//@   // what arrives on the chain watcher's channels is not nil (assumed: the senders are under contract in chain_watcher.go)
+//@   site call handleLocalForceCloseEvent: domain arg(1) != nil
+//@   site call handleRemoteForceCloseEvent: domain arg(1) != nil
+//@   site call handleContractBreach: domain arg(1) != nil
+//@   ensures c.startTimestamp == old(c.startTimestamp)
+//@
+//@ // ---- nursery (legacy channels): an output whose confirmation is processed late - after a restart the confirmation is re-registered and
+//@ // ---- delivered when the classes up to the chain tip have already been graduated - is filed under a class that will still be visited:
+//@ // ---- strictly above the last graduated height (a class at or below it is never looked at again until the next restart)
+//@ func (ns *NurseryStore) PreschoolToKinder$1
+//@   props C13
+//@   loop * havoc
+//@   site call createHeightChanBucket: assert arg(1) == tx && arg(3) == chanPoint &&
+//@        (lastGradHeight < 4294967295 ==> arg(2) > lastGradHeight)
+//@   site call Put nth 1: assert retn(createHeightChanBucket, 1) == nil
+//@
+//@ // ---- restart with a channel that is closed on chain but not yet resolved: its arbitrator is configured with the close that was RECORDED
+//@ // ---- (type and height) - the restart trigger is picked from the close type, and the zero value reads as a cooperative close, which
+//@ // ---- tunnels a stalled force close straight to fully-resolved
+//@ func (c *ChainArbitrator) loadPendingCloseChannels
+//@   props C13
+//@   loop * havoc
+//@   site call NewChannelArbitrator: assert arg(0).CloseType == closeChanInfo.CloseType && arg(0).IsPendingClose &&
+//@        arg(0).ClosingHeight == closeChanInfo.CloseHeight
